@@ -158,6 +158,16 @@ CmpClauses(e) ==
 ---------------------------------------------------------------------------
 (* C03 / C10  + - / of like quantities                                     *)
 ArithInRange(op, a, sa, b, sb, smin) ==
+    IF BE = "f64"
+    THEN \* operands, the right operand in the left one's unit, and the result (no overflow of the sum; the ratio itself)
+         /\ IsFin(a) /\ IsFin(b)
+         /\ WideF64(a, XOne) /\ WideF64(b, XOne)
+         /\ WideF64(XMul(b, sb), sa)
+         /\ InR(BE, sb, sa) /\ InR(BE, sa, sb)
+         /\ IF op = "div"
+            THEN ~XIsZero(b) /\ WideF64(XMul(a, sa), XMul(b, sb))
+            ELSE WideF64(XAdd(XAbs(XMul(a, sa)), XAbs(XMul(b, sb))), sa)
+    ELSE
     /\ IsFin(a) /\ IsFin(b)
     /\ InR(BE, a, XOne) /\ InR(BE, b, XOne)
     /\ InR(BE, XMul(a, sa), XOne) /\ InR(BE, XMul(b, sb), XOne)
